@@ -163,10 +163,10 @@ def shrink_repeat(case):
     return cur
 
 
-def repeat_family(rep, rng, n_cases, n_end, with_model=True, label="repeat"):
+def repeat_family(rep, rng, n_cases, n_end, with_model=True, label="repeat", all_counts=False):
     cases = [G.RepeatCase(rng) for _ in range(n_cases)]
     # boundaries of the count: 0, 1, 40 and a forward-referenced count
-    for n in (0, 1, 40, 40):
+    for n in (range(0, 41) if all_counts else (0, 1, 40, 40)):
         cases.append(G.RepeatCase(rng, n_override=n))
     ends = [G.RepeatCase(rng, end_in_body=True) for _ in range(n_end)]
     allc = cases + ends
@@ -195,7 +195,7 @@ def repeat_family(rep, rng, n_cases, n_end, with_model=True, label="repeat"):
                             {"files": [["t.mac", m.repeat_text()]], "files_transformed": [["t.mac", m.unrolled_text(True)]], "transformation": "unroll",
                              "count": m.n, "base_mode": m.base_mode},
                             impl=brief(ra), impl_transformed=brief(rb))
-        if with_model:
+        if with_model and a["outcome"] in ("ok", "failed") and b["outcome"] in ("ok", "failed"):
             try:
                 cnt, blk = G.parse_repeat(c.repeat_text())
                 if G.depth_of(blk) > 3:
@@ -605,14 +605,15 @@ def explore(rep, br, tier, seed):
     # the model-free part first: it must report even when the models no longer evaluate
     err = None
     try:
-        repeat_family(rep, rng, 450 if quick else 5000, 6, with_model=True)
+        repeat_family(rep, rng, 420 if quick else 9000, 6, with_model=True, all_counts=True)
+        rep.exhaustive_parts.append("every repeat count n = 0..40 (literal) with a generated body, base set first / last / defaulted at random")
     except RuntimeError as ex:
         err = ex
     try:
-        structure_family(rep, rng, 200 if quick else 2500, with_model=True)
+        structure_family(rep, rng, 210 if quick else 4200, with_model=True)
     except RuntimeError as ex:
         err = err or ex
-    rich_family(rep, rng, 60 if quick else 700)
+    rich_family(rep, rng, 60 if quick else 1200)
     rep.notes.append("repeat/unroll and the five file transformations are judged on the implementation alone; the Coq judge repeats the comparison "
                      "of the two observed images and checks both against the models")
     if err is not None:
